@@ -262,6 +262,13 @@ class Scheduler:
         self.watch = {}           # site -> probe name (reach probes)
         self.watch_hits = {}      # (probe name, tid) -> count
         self.overlap_steps = 0
+        # crash of one caller: at the k-th function entry (PY_START in adaptix code) of thread t, while one of its ops is
+        # in flight, raise kill["exc"] there; entries are counted per thread whenever count_entries is set
+        self.kill = None          # {"t": tid, "k": n, "exc": exception class}
+        self.count_entries = False
+        self.entries = []
+        self.killed = None        # {"t", "k", "at"} once delivered
+        self.cur_op = {}          # tid -> index of the op in flight (maintained by the engine)
 
     # -- setup -----------------------------------------------------------------------------------
     def add_thread(self, fn):
@@ -269,6 +276,7 @@ class Scheduler:
         self.gates.append(threading.Semaphore(0))
         self.status.append("ready")
         self.steps.append(0)
+        self.entries.append(0)
 
         def body():
             self.gates[tid].acquire()
@@ -290,6 +298,21 @@ class Scheduler:
 
     def cur_tid(self):
         return self.ident2tid.get(_thread.get_ident())
+
+    def _on_start(self, code, offset):
+        if not is_adaptix_file(code.co_filename):
+            return mon.DISABLE
+        tid = self.ident2tid.get(_thread.get_ident())
+        if tid is None or tid not in self.in_flight:
+            return None
+        self.entries[tid] += 1
+        kl = self.kill
+        if kl is not None and self.killed is None and tid == kl["t"] and self.entries[tid] == kl["k"]:
+            self.killed = {"t": tid, "k": kl["k"], "at": f"{short_file(code.co_filename)}:{code.co_name}",
+                           "op_index": self.cur_op.get(tid)}
+            self.h.update(f"{tid}:kill@{self.killed['at']};".encode())
+            raise kl["exc"](f"simulated interrupt of caller thread {tid} at function entry #{kl['k']}")
+        return None
 
     # -- the seam --------------------------------------------------------------------------------
     def _on_line(self, code, line):
@@ -487,7 +510,11 @@ class Scheduler:
         mon.use_tool_id(TOOL, "vsim")
         try:
             mon.register_callback(TOOL, mon.events.LINE, self._on_line)
-            mon.set_events(TOOL, mon.events.LINE)
+            if self.kill is not None or self.count_entries:
+                mon.register_callback(TOOL, mon.events.PY_START, self._on_start)
+                mon.set_events(TOOL, mon.events.LINE | mon.events.PY_START)
+            else:
+                mon.set_events(TOOL, mon.events.LINE)
             if self.instr:
                 mon.register_callback(TOOL, mon.events.INSTRUCTION, self._on_instruction)
                 for c in self._instr_codes():
@@ -504,6 +531,7 @@ class Scheduler:
             ok = self.done.wait(self.wall_timeout)
             mon.set_events(TOOL, 0)
             mon.register_callback(TOOL, mon.events.LINE, None)
+            mon.register_callback(TOOL, mon.events.PY_START, None)
         finally:
             mon.free_tool_id(TOOL)
         if not ok:
